@@ -22,6 +22,12 @@ CHECKS = {
  "C05": ("Reader: Lean proves that a Parse() statement list passing the decidable check guardOK (every slice dominated by an earlier length guard) never reaches the interpreter's panic outcome, for every input string (parseStmts_no_panic, using runeCount <= length); `decide` establishes guardOK for the Parse() regenerated from each of the 22 record types; the model reader is total by construction. The model is tied to reader.go on malformed inputs (every record resized to every length, lying length fields and prefixes, non-UTF-8 text, random bytes, the repository's crasher corpus, four option sets). JSON loader, build and writer on nil shapes: every single-position mutation of a full document, each returned file (also with an error) validated, marshalled, written x4 and built under recover, time and allocation bounds.",
          TB + "PARTIAL: wall-clock hangs and real heap use are runtime properties that a Lean model cannot exhibit (the harness bounds them: 5 s, 64*(input+buffer)+4 MiB per read); the JSON-tail nil-shape analysis is enumeration, not proof.",
          "Lean 4 proof (guard domination => no panic) over regenerated Parse tables + malformed-input correspondence + JSON mutation enumeration", "§7.5"),
+ "C06": ("Lean theorems on the build model (Bundle.build / CashLetter.build / File.Create transcribed): every total in the control produced by a successful build is the corresponding sum over the content (bundle_control_recount, file_control_recount) and TotalRecordCount equals the length of the writer walk for every file the writer accepts (total_record_count_is_written, via file_count_eq_flatten: counter formula = File.flatten length by induction over cash letters, bundles, items and image-view indices). The model is tied to the code by building generated trees (credits, credit items, summaries, any addenda/views) with the real Create() calls and the model; the recount and written-line predicates are evaluated on the real result.",
+         TB + "The build model is hand-written (correspondence, 0 disagreements); cash-letter level recount is checked on the real code, its model theorem is not yet stated.",
+         "Lean 4 proof on the build model + build correspondence", "§7.6"),
+ "C07": ("Lean theorems on the model's numbering loops: addenda A / C of every built check item carry 1,2,3,.. and the same integer their item is stamped with, supplied numbers keep their value (numberChecks_spec), bundles are numbered n, n+1, .. in order (buildBundles_numbers); the uniqueness clause is false and `filled_can_collide` proves the witness (recorded finding). Tied to cashLetter.go by building cash letters with up to 9 A / 12 C,D addenda and seeded blank/supplied sequence numbers with the real CashLetter.Create() and the model.",
+         TB + "Return items (addenda A / D) are covered by the correspondence stream; their model theorem mirrors numberChecks_spec and is not yet stated. One recorded finding.",
+         "Lean 4 proof on the build model + build correspondence", "§7.7"),
  "C08": ("Lean theorems about the model writer: both framings wrap the same body and the prefix is len(record.String()) (framing_wraps_same_body); under EBCDIC the body of an ASCII-text record is its byte-for-byte CP037 transliteration of equal length (ebcdic_translit, via encode_ascii over the encoder model and the regenerated table), record 52 transliterates toString(false) and passes the image bytes of String() through (ebcdic_ivData); length-prefix framing is lossless (splitLP_joinLP). The model writer is tied to writer.go by rendering generated files (base64 images, lying image lengths, binary signatures included) in all four option sets with both, and the relations are checked on the real bytes.",
          TB + "gdamore/encoding's encoder is modelled (rune-level, chunk boundary behaviour of x/text transform.String beyond 128-byte lines is NOT modelled; lines with non-ASCII text longer than 128 bytes are outside the model). One recorded finding (binary signature under EBCDIC).",
          "Lean 4 proof on the writer model + four-rendering correspondence", "§7.8"),
